@@ -1,6 +1,7 @@
 package main
 
 import (
+	"bytes"
 	"fmt"
 	"math/rand"
 	"os"
@@ -66,6 +67,9 @@ func faultCommands(proto string, k, k2 []byte) []Command {
 		{Kind: "touch", Key: k, Exptime: 600, Opaque: 47},
 		{Kind: "get", Keys: []GetKey{{Key: k, Opaque: 48}}},
 		{Kind: "get", Keys: []GetKey{{Key: k, Opaque: 49, Quiet: proto == "bin"}, {Key: k2, Opaque: 50, Quiet: proto == "bin"}, {Key: k, Opaque: 51}}},
+		// consecutive keys on ONE lock stripe (the same key twice), then another: a failure under
+		// the first must not leave the stripe locked for the second
+		{Kind: "get", Keys: []GetKey{{Key: k, Opaque: 58, Quiet: proto == "bin"}, {Key: k, Opaque: 59, Quiet: proto == "bin"}, {Key: k2, Opaque: 60}}},
 	}
 	if proto == "bin" {
 		cmds = append(cmds, Command{Kind: "gat", Key: k, Exptime: 700, Opaque: 52},
@@ -105,6 +109,16 @@ func faultScenario(id string, cfg StackCfg, proto string, cmd Command, f FaultSp
 		feed("A", Command{Kind: "get", Keys: []GetKey{{Key: k, Opaque: 65}}}))
 	if cfg.Orca == "l1l2" {
 		sc.Steps = append(sc.Steps, feed("C", Command{Kind: "touch", Key: k, Exptime: 50, Opaque: 66}))
+	}
+	if cfg.L1 == "chunked" {
+		// values of several chunks: a fault can then strike between the chunks of one value, and
+		// an overwrite that stops half-way leaves chunks of two values side by side
+		for i := range sc.Steps {
+			c := &sc.Steps[i].Cmd
+			if sc.Steps[i].Kind == "feed" && (c.Kind == "set" || c.Kind == "add" || c.Kind == "replace") && len(c.Data) > 0 {
+				c.Data = append(append([]byte{}, c.Data...), bytes.Repeat(c.Data[:1], 2500-len(c.Data))...)
+			}
+		}
 	}
 	return sc
 }
